@@ -56,6 +56,37 @@ def events(seed, npts):
                 pa = po = back = float("nan")
             ev.append({"kind": "pz", "z": bits(z), "pa": bits(pa), "po": bits(po), "back": bits(back), "ser": 1000 + 3 * j,
                        "_m": {"z": float(z), "P": float(pa), "form": form}})
+    # whole-number altitudes / pressures given as Python ints, numpy integers and integer arrays, and binary32 inputs: "for scalars
+    # as well as arrays" - an altitude of 5 km is in the domain however it is spelled (binary32 inputs are judged at the double they hold)
+    for j, zi in enumerate((0, 5, 11, 20, 47, 86, 119)):
+        for form, arg in (("int", int(zi)), ("np.int64", np.int64(zi)), ("int array", np.array([zi, zi], dtype=np.int64)),
+                          ("float32", np.float32(zi + 0.25)), ("float32 array", np.array([zi + 0.25, zi + 0.5], dtype=np.float32)),
+                          ("list", [float(zi), zi + 0.5])):
+            zval = float(np.asarray(arg, dtype=float).reshape(-1)[0])
+            try:
+                pa = float(np.asarray(A.us_std_atm_pressure_from_altitude(arg), dtype=float).reshape(-1)[0])
+                po = float(np.asarray(O.us_std_atm_pressure_from_altitude(arg), dtype=float).reshape(-1)[0])
+                back = float(np.asarray(A.us_std_atm_altitude_from_pressure(pa), dtype=float).reshape(-1)[0])
+                err = None
+            except Exception as ex:
+                pa = po = back = float("nan")
+                err = repr(ex)[:160]
+            ev.append({"kind": "pz", "z": bits(zval), "pa": bits(pa), "po": bits(po), "back": bits(back), "ser": 8000 + 10 * j,
+                       "_m": {"z": zval, "P": pa, "form": form, "error": err}})
+    for j, Pi in enumerate((101325, 50000, 22632, 5474, 868, 110, 66, 3, 1)):
+        for form, arg in (("int", int(Pi)), ("np.int64", np.int64(Pi)), ("int array", np.array([Pi, Pi], dtype=np.int64)),
+                          ("float32", np.float32(Pi)), ("list", [float(Pi), float(Pi)])):
+            Pval = float(np.asarray(arg, dtype=float).reshape(-1)[0])
+            try:
+                za = float(np.asarray(A.us_std_atm_altitude_from_pressure(arg), dtype=float).reshape(-1)[0])
+                zo = float(np.asarray(O.us_std_atm_altitude_from_pressure(arg), dtype=float).reshape(-1)[0])
+                bk = float(np.asarray(A.us_std_atm_pressure_from_altitude(za), dtype=float).reshape(-1)[0])
+                err = None
+            except Exception as ex:
+                za = zo = bk = float("nan")
+                err = repr(ex)[:160]
+            ev.append({"kind": "zp", "P": bits(Pval), "za": bits(za), "zo": bits(zo), "back": bits(bk),
+                       "_m": {"P": Pval, "z": za, "form": form, "error": err}})
     # ---- pressures
     P = np.concatenate([101325.0 * 10.0 ** np.linspace(0.0, -8.5, npts // 2), np.asarray(const.std_atm_pressure[:-1], dtype=float),
                         rng.uniform(1e-3, 101325.0, npts // 4)])
@@ -81,28 +112,32 @@ def events(seed, npts):
     for i in range(len(P)):
         ev.append({"kind": "zp", "P": bits(P[i]), "za": bits(za[i]), "zo": bits(zo[i]), "back": bits(back[i] if i % 2 else backo[i]),
                    "_m": {"P": float(P[i]), "z": float(za[i]), "form": "array", "back_copy": "atmosphere" if i % 2 else "optical"}})
-    # ---- histories: ONE buffer object reused across calls and changed in place in between (a stepping loop: z += dz), lists, views;
-    # every call must answer for the values the argument holds NOW
+    # ---- histories: ONE buffer object reused across CONSECUTIVE calls of one function and changed in place in between (a stepping
+    # loop: z += dz), with no other call in between (a last-call memo survives only then); every call must answer for the values the
+    # argument holds NOW.  Arrays, 0-d arrays; both functions; both copies.
     for name, M in (("atmosphere", A), ("optical", O)):
-        buf = np.array([1.0, 11.5, 33.0, 70.0])
-        pbuf = np.array([90000.0, 5000.0, 30.0, 0.5])
-        z0 = np.asarray(3.0)
-        for step in range(4):
-            pa = np.array(M.us_std_atm_pressure_from_altitude(buf), dtype=float)
-            back = np.array(M.us_std_atm_altitude_from_pressure(pa.copy()), dtype=float)
-            za = np.array(M.us_std_atm_altitude_from_pressure(pbuf), dtype=float)
-            bk = np.array(M.us_std_atm_pressure_from_altitude(za.copy()), dtype=float)
-            p0 = float(np.asarray(M.us_std_atm_pressure_from_altitude(z0), dtype=float).reshape(-1)[0])
-            for i in range(len(buf)):
-                ev.append({"kind": "pz", "z": bits(buf[i]), "pa": bits(pa[i]), "po": bits(pa[i]), "back": bits(back[i]), "ser": 7000 + 10 * step + i,
-                           "_m": {"z": float(buf[i]), "P": float(pa[i]), "form": "reused buffer", "copy": name, "step": step}})
-                ev.append({"kind": "zp", "P": bits(pbuf[i]), "za": bits(za[i]), "zo": bits(za[i]), "back": bits(bk[i]),
-                           "_m": {"P": float(pbuf[i]), "z": float(za[i]), "form": "reused buffer", "copy": name, "step": step}})
-            ev.append({"kind": "pz", "z": bits(float(z0)), "pa": bits(p0), "po": bits(p0), "back": bits(float(z0)), "ser": 7900 + step,
-                       "_m": {"z": float(z0), "P": p0, "form": "reused 0-d buffer", "copy": name, "step": step}})
-            buf += 7.25                      # in place: the same object, new contents
-            pbuf *= 0.37
-            z0[...] = float(z0) + 20.0
+        for what, fn, inv, start, step_f in (("pz", M.us_std_atm_pressure_from_altitude, M.us_std_atm_altitude_from_pressure,
+                                              np.array([1.0, 11.5, 33.0, 70.0]), lambda b: b + 7.25),
+                                             ("zp", M.us_std_atm_altitude_from_pressure, M.us_std_atm_pressure_from_altitude,
+                                              np.array([90000.0, 5000.0, 30.0, 0.5]), lambda b: b * 0.37)):
+            for form, buf in (("reused buffer", start.copy()), ("reused 0-d buffer", np.asarray(float(start[1])))):
+                seen = []
+                for step in range(4):
+                    out = np.array(fn(buf), dtype=float)            # nothing else is called between two steps
+                    seen.append((np.array(buf, dtype=float).copy(), out))
+                    buf[...] = step_f(np.array(buf, dtype=float))    # in place: the same object, new contents
+                for step, (arg, out) in enumerate(seen):
+                    back = np.array(inv(out.copy()), dtype=float)
+                    a1, o1, b1 = np.atleast_1d(arg), np.atleast_1d(out), np.atleast_1d(back)
+                    for i in range(len(a1)):
+                        m = {"form": form, "copy": name, "step": step}
+                        if what == "pz":
+                            ev.append({"kind": "pz", "z": bits(a1[i]), "pa": bits(o1[i]), "po": bits(o1[i]), "back": bits(b1[i]),
+                                       "ser": 7000 + 100 * step + i + (50 if form != "reused buffer" else 0) + (500 if name == "optical" else 0),
+                                       "_m": dict(m, z=float(a1[i]), P=float(o1[i]))})
+                        else:
+                            ev.append({"kind": "zp", "P": bits(a1[i]), "za": bits(o1[i]), "zo": bits(o1[i]), "back": bits(b1[i]),
+                                       "_m": dict(m, P=float(a1[i]), z=float(o1[i]))})
     # arrays that mix the end points with ordinary values: every element is judged
     mixP = np.array([0.0, 5.0, 101325.0, 1e-3, 0.0, 22632.0])
     za, zo = A.us_std_atm_altitude_from_pressure(mixP.copy()), O.us_std_atm_altitude_from_pressure(mixP.copy())
